@@ -3,6 +3,7 @@ package checks
 import (
 	"fmt"
 	"math/rand"
+	"sort"
 	"strings"
 )
 
@@ -792,12 +793,50 @@ func (g *TGen) InjectFault(s *genSchema) *SchemaFault {
 							}
 							return t, false
 						}
-						if w, ok := weaken(rf.Type); ok {
+						var rebase func(t AType, name string) AType
+						rebase = func(t AType, name string) AType {
+							if t.K == "list" {
+								return TList(rebase(t.Of[0], name), t.NN)
+							}
+							return TNamed(name, t.NN)
+						}
+						// a possible type of an abstract base (a legal narrowing on its own)
+						narrowed := rf.Type
+						base := rf.Type.Base()
+						if bd := m[base]; bd != nil && (bd.Kind == "INTERFACE" || bd.Kind == "UNION") {
+							var poss []string
+							for n, x := range m {
+								if x.Kind != "OBJECT" {
+									continue
+								}
+								for _, i := range x.Ifaces {
+									if i == base {
+										poss = append(poss, n)
+									}
+								}
+							}
+							poss = append(poss, bd.Members...)
+							sort.Strings(poss)
+							if len(poss) > 0 {
+								narrowed = rebase(rf.Type, poss[g.R.Intn(len(poss))])
+							}
+						}
+						w, canWeaken := weaken(rf.Type)
+						switch k := g.R.Intn(4); {
+						case k == 0 && canWeaken:
 							f.Type = w
-						} else if rf.Type.K == "list" {
-							f.Type = rf.Type.Of[0]
-						} else {
-							f.Type = TList(rf.Type, false)
+						case k == 1 && rf.Type.K == "list":
+							f.Type = narrowed.Of[0] // one list level less
+						case k == 2:
+							f.Type = TList(narrowed, narrowed.NN) // one list level more, around a legal narrowing
+						default:
+							if canWeaken {
+								f.Type = w
+							} else if rf.Type.K == "list" {
+								f.Type = rf.Type.Of[0]
+							} else {
+								f.Type = TList(rf.Type, false)
+							}
 						}
 						return &SchemaFault{"Implementers", t.Name + "." + f.Name + " is not covariant with " + in, []string{t.Name, in}}
 					}
@@ -932,6 +971,55 @@ func (g *TGen) InjectFault(s *genSchema) *SchemaFault {
 			default:
 				d.DirDefs = append(d.DirDefs, ADirDef{Name: "__dir", Args: []AArgDef{}, Locs: []string{"FIELD"}})
 				return &SchemaFault{"NoDunder", "directive named __dir", []string{"@__dir"}}
+			}
+		},
+		func() *SchemaFault { // the violation sits in an extension of a BUILT-IN type (merged into the prelude's definition)
+			ext := func(kind, name string) ATypeDef {
+				return ATypeDef{Kind: kind, Name: name, Ext: true, Fields: []AFieldDef{}, Ifaces: []string{}, Members: []string{}, Values: []AEnumVal{}, Dirs: []ADirUse{}}
+			}
+			fld := func(name string, t AType) AFieldDef {
+				return AFieldDef{Name: name, Type: t, Args: []AArgDef{}, Dirs: []ADirUse{}}
+			}
+			obj := []string{"__Schema", "__Type", "__Field", "__InputValue", "__EnumValue", "__Directive"}[g.R.Intn(6)]
+			switch g.R.Intn(5) {
+			case 0:
+				e := ext("OBJECT", obj)
+				e.Fields = append(e.Fields, fld("extra", TNamed("Missing", false)))
+				d.Defs = append(d.Defs, e)
+				return &SchemaFault{"RefsExist", "extension of built-in " + obj + " adds a field of undefined type", []string{obj}}
+			case 1:
+				e := ext("OBJECT", obj)
+				e.Fields = append(e.Fields, fld(map[string]string{"__Schema": "types", "__Type": "name", "__Field": "name", "__InputValue": "name", "__EnumValue": "name", "__Directive": "name"}[obj], TNamed("Int", false)))
+				d.Defs = append(d.Defs, e)
+				return &SchemaFault{"UniqueFields", "extension of built-in " + obj + " repeats one of its fields", []string{obj}}
+			case 2:
+				sc := builtinScalars[g.R.Intn(len(builtinScalars))]
+				e := ext("SCALAR", sc)
+				e.Dirs = append(e.Dirs, ADirUse{Name: "undeclared", Args: []AArgUse{}})
+				d.Defs = append(d.Defs, e)
+				return &SchemaFault{"DirectivesOK", "extension of built-in scalar " + sc + " uses an undeclared directive", []string{sc}}
+			case 3:
+				if len(s.inputs) == 0 {
+					return nil
+				}
+				e := ext("OBJECT", obj)
+				e.Fields = append(e.Fields, fld("extra", TNamed(g.pick(s.inputs), false)))
+				d.Defs = append(d.Defs, e)
+				return &SchemaFault{"RightKinds", "extension of built-in " + obj + " adds an output field of input-object type", []string{obj}}
+			default:
+				if len(s.ifaces) == 0 {
+					return nil
+				}
+				in := g.pick(s.ifaces)
+				for _, t := range d.Defs {
+					if t.Name == in && len(t.Fields) == 0 {
+						return nil
+					}
+				}
+				e := ext("OBJECT", obj)
+				e.Ifaces = append(e.Ifaces, in)
+				d.Defs = append(d.Defs, e)
+				return &SchemaFault{"Implementers", "extension makes built-in " + obj + " implement " + in + " without its fields", []string{obj, in}}
 			}
 		},
 		func() *SchemaFault { // directive misuse
